@@ -64,9 +64,13 @@ def run(cx):
         cx.ob('EXPR', 'KdTree::nearest_one:query', find(f'(call ImmutableKdTree::nearest_one (self tree) {Q})', cx.retval(b)) is not None, 'the query point is handed to kiddo', where=b.file)
     b = cx.fn(f'{KD}::KdTree::new')
     if b:
-        pushes = b.calls('Vec::push')
-        ok = len(pushes) == 1 and match('(call T::into (field coords (itervar (param points))))', cx.arg(pushes[0], 1)) is not None
-        cx.ob('EXPR', 'KdTree::new', ok and find('(call ImmutableKdTree::new_from_slice _)', cx.retval(b)) is not None, 'the tree holds every input point, in input order (item i = point i)', where=b.file)
+        r = cx.retval(b)
+        ev = find('(call ImmutableKdTree::new_from_slice $v)', r)
+        IDXP = '(index (param points) (itervar (range 0 (len (param points)))))'
+        if ev is None:
+            cx.ob('EXPR', 'KdTree::new', False, 'the tree holds every input point, in input order (item i = point i)', where=b.file, found=r)
+        else:
+            cx.expect_comp('EXPR', 'KdTree::new', b, ev[1]['v'], '(param points)', f'(call T::into (field coords {IDXP}))', 'the tree holds every input point, in input order (item i = point i)')
     # ---------------------------------------------------------------- PartialKdTree
     P = f'{KD}::PartialKdTree'
     b = cx.fn(f'{P}::nearest_one')
@@ -76,16 +80,16 @@ def run(cx):
     for fn, inner in (('within', '(call *KdTree::within (self tree) (param point) (param radius))'), ('nearest', '(call *KdTree::nearest (self tree) (param point) (param count))')):
         b = cx.fn(f'{P}::{fn}')
         if b:
-            cx.expect('EXPR', f'PartialKdTree::{fn}', cx.retval(b), f'(call Iterator::collect (call Iterator::map {inner} (closure * (param self))))', f'{fn}: every inner result is mapped, with the same query arguments', where=b.file)
-            for cl in cx.facts.closures_of(b.name):
-                cx.expect('EXPR', f'PartialKdTree::{fn}:remap', cx.retval(cl), '(agg tuple (0 (index (field index_map (field cap:self (param 1))) (field 0 (param 2)))) (1 (field 1 (param 2))))',
-                          f'{fn}: (index_map[inner index], distance)', where=cl.file)
+            R = f'(index {inner} (itervar (range 0 (len {inner}))))'
+            cx.expect_comp('EXPR', f'PartialKdTree::{fn}', b, cx.retval(b), inner, f'(agg tuple (0 (index (self index_map) (field 0 {R}))) (1 (field 1 {R})))',
+                           f'{fn}: every inner result (same query arguments) is mapped to (index_map[inner index], distance)')
     b = cx.fn(f'{P}::new')
     if b:
-        cx.expect('EXPR', 'PartialKdTree::new', cx.retval(b), '(agg * (tree (call *KdTree::new (call Iterator::collect (call Iterator::map (param indices) (closure * (param all_points)))))) (index_map (param indices)))',
-                  'the sub-tree points and index_map come from the SAME index slice, in the same order', where=b.file)
-        for cl in cx.facts.closures_of(b.name):
-            cx.expect('EXPR', 'PartialKdTree::new:gather', cx.retval(cl), '(index (field cap:all_points (param 1)) (param i))', 'sub-tree point k = all_points[indices[k]]', where=cl.file)
+        e = cx.expect('EXPR', 'PartialKdTree::new', cx.retval(b), '(agg * (tree (call *KdTree::new $pts)) (index_map (param indices)))',
+                      'the sub-tree points and index_map come from the SAME index slice, in the same order', where=b.file)
+        if e is not None:
+            I = '(index (param indices) (itervar (range 0 (len (param indices)))))'
+            cx.expect_comp('EXPR', 'PartialKdTree::new:gather', b, e['pts'], '(param indices)', f'(index (param all_points) {I})', 'sub-tree point k = all_points[indices[k]], for every k in order')
     E.enc(cx, P, ('tree', 'index_map'), constructors=[f'{P}::new'])
     E.enc(cx, f'{KD}::KdTree', ('tree',), constructors=[f'{KD}::KdTree::new'])
     # ---------------------------------------------------------------- Poisson disk
